@@ -147,7 +147,14 @@ Inductive case :=
 | CFilter (az : aztab) (input expected : response)
 | CExpired (exp : option N) (as_of : N) (got : bool)
 | CResolve (acls : bool) (cls : secret_class) (attempts : list attempt) (down : down_policy)
-           (cache_in : option ident) (out : outcome) (cache_out : option ident).
+           (cache_in : option ident) (out : outcome) (cache_out : option ident)
+(* one blocking query on a real endpoint: the token (held by a locally resolving backend), the
+   time of the resolution before the loop, the times of the runs, and whether the LAST run was
+   authorized by the token (true) or refused (false) *)
+| CBlocking (held : bool) (tok : ident) (t_resolve : N) (times : list N) (last_by_token : bool)
+(* one reply through SetQueryMeta: request token blank / resolvable / anonymous, whether the
+   filter removed something (fresh reply), the flag the client gets *)
+| CMask (blank ok anon removed flag : bool).
 
 Definition check (c : case) : bool :=
   match c with
@@ -157,6 +164,20 @@ Definition check (c : case) : bool :=
   | CResolve acls cls atts down cin out cout =>
       let '(o, c') := resolve_token acls cls (fun i => nth i atts dflt_attempt) down cin in
       outcome_eqb o out && option_eqb ident_eqb c' cout
+  | CBlocking held tok t0 times last_by_token =>
+      let resolve_at := fun now =>
+        fst (resolve_token true SecPlain (env_at (BkDone (Some tok) BkOk) true RpcFail PolOk now) DownExtend None) in
+      let runs := if held then blocking_held (resolve_at t0) times
+                  else match auth_of (resolve_at t0) with
+                       | RunRefused => []
+                       | _ => blocking_reresolve resolve_at times
+                       end in
+      match last runs ByOther, last_by_token with
+      | ByToken t, true => ident_eqb t tok
+      | RunRefused, false => true
+      | _, _ => false
+      end
+  | CMask blank ok anon removed flag => Bool.eqb (mask_flag blank ok anon removed) flag
   end.
 
 Definition mismatches (cs : list case) : list N := failing check cs.
